@@ -156,9 +156,6 @@ class _Beam(_IModel):
 
         self.yAxis = yAxis  # type: ignore [assignment]
 
-        self._ky = self._Get_shear_correction_factor("y")
-        self._kz = self._Get_shear_correction_factor("z")
-
     @property
     def line(self) -> Line:
         """average fiber line of the beam."""
@@ -180,6 +177,9 @@ class _Beam(_IModel):
         assert np.abs(Iyz) <= 1e-9, "The section must have at least 1 symetry axis."
         self.Need_Update()
         self.__section: "Mesh" = section
+        # the shear correction factors are properties of the cross-section
+        self._ky = self._Get_shear_correction_factor("y")
+        self._kz = self._Get_shear_correction_factor("z")
 
     @property
     def xAxis(self) -> _types.FloatArray:
